@@ -50,7 +50,7 @@ ASSUMPTIONS = [
 ]
 
 COLORS = ["tab:blue", "tab:orange", "tab:green", "red", "black", "#123456"]
-MARKERS = ["o", "s", "^", "v", "D", "*"]
+MARKERS = ["o", "s", "^", "v", "D", "*", (5, 1)]     # the last one: a tuple marker (numsides, style)
 NAMES = ["self", "a", "b", "c", "d", "kwargs", "options", "kw", "args", "rest", "n", "seed"]
 KINDS = ["PosOnly", "PosOrKw", "VarPos", "KwOnly", "VarKw"]
 E_NOT_IMPLEMENTED, E_VARARGS, E_MISSING, E_INVALID, E_POSONLY, E_NOLOC = 1, 1, 2, 3, 4, 5
@@ -123,11 +123,11 @@ def _gen_portrayal(rng):
         if style < 0.15:
             tab.append([None, None, None, None])
         elif style < 0.3:
-            tab.append([rng.randint(1, 60), rng.randrange(6), rng.randrange(6), rng.randint(-1, 3)])
+            tab.append([rng.randint(1, 60), rng.randrange(6), rng.randrange(7), rng.randint(-1, 3)])
         else:
             tab.append([rng.randint(1, 60) if rng.random() < 0.5 else None,
                         rng.randrange(6) if rng.random() < 0.6 else None,
-                        rng.randrange(4) if rng.random() < 0.5 else None,
+                        rng.choice([0, 1, 2, 3, 6]) if rng.random() < 0.5 else None,
                         rng.randint(-1, 3) if rng.random() < 0.5 else None])
     return tab
 
